@@ -1,6 +1,6 @@
 (* second introduction order of the bounded canonicity sweep (separate file: built in parallel) *)
 Require Import KV.Sdd.Model KV.Sdd.Sem KV.Sdd.Spec KV.Sdd.History KV.Sdd.Canon3Defs KV.Sdd.Canon3.
-Lemma sweep_201 : sweep3 FUEL3 [2; 0; 1] = true.
-Proof. vm_cast_no_check (eq_refl true). Qed.
-Lemma canonical3_201 : canonical3 FUEL3 [2; 0; 1].
-Proof. apply sweep3_sound. exact sweep_201. Qed.
+Lemma sweep_201 : check3 FUEL3 (m3 [2; 0; 1]) (h3 [2; 0; 1]) = true.
+Proof. vm_cast_no_check (@eq_refl bool true). Qed.
+Lemma canonical3_201 : canonical3 FUEL3 (m3 [2; 0; 1]) (h3 [2; 0; 1]).
+Proof. exact (check3_sound FUEL3 (m3 [2; 0; 1]) (h3 [2; 0; 1]) sweep_201). Qed.
